@@ -200,7 +200,11 @@ CHECKS = {
        "says, the pair invariant (packets in flight <-> awaited sets and handled set, identifiers in flight distinct, published = delivered "
        "++ PUBLISHes in flight) holds throughout, and after at most [measure] further rounds both links are empty and the messages "
        "notified are exactly the published ones, once each, in order (C01_pair_every_schedule_succeeds, C01_pair_concurrent_exactly_once: "
-       "pair invariant + termination measure); (1b) THE SAME ACROSS TRANSPORT LOSS - persistent sessions, one more action 'the transport "
+       "pair invariant + termination measure); (1a) BOTH DIRECTIONS AT ONCE - both sides publish, each link carries PUBLISH/PUBREL of one side "
+       "and its acknowledgements of the other side's messages: the invariant twice, a simulation of the two-way system by the two one-way "
+       "systems with frame lemmas (a receiver's step leaves its sender role alone and vice versa): every schedule succeeds and after the "
+       "drain each application has been notified of exactly what the other side published (C01_pair_two_way_exactly_once); "
+       "(1b) THE SAME ACROSS TRANSPORT LOSS - persistent sessions, one more action 'the transport "
        "is lost, both sides are told, the client reconnects without Clean Session, the server answers Session Present, the client "
        "retransmits its store': for every schedule of publications, deliveries and losses no call panics or reports an error, every "
        "resumption succeeds, the extended pair invariant holds again and the links drain in at most [measure] rounds once losses stop "
@@ -212,7 +216,7 @@ CHECKS = {
        "pair of states, both versions (C01_pair_qos1_completes, ...), all tied to step by C01_send_call_is_send_publish / "
        "C01_recv_call_is_deliver (..._v5); (4) the per-endpoint facts: fragmentation independence (C09), a transport loss leaves nothing of the "
        "cut connection behind and keeps a persistent session (C10), unmatched acknowledgements are protocol errors (C06). NOT proved "
-       "(C01_partial): traffic in both directions at once inside one pair theorem, a loss in the middle of the resumption handshake or of a frame, manual responses, v5.0 with several exchanges in flight "
+       "(C01_partial): losses with traffic in both directions at once, a loss in the middle of the resumption handshake or of a frame, manual responses, v5.0 with several exchanges in flight "
        "or topic aliases. Those, and the tie to the code, are decided on pairs of REAL objects: a Client and a Server GenericConnection "
        "wired by two byte queues under seeded workloads from both sides, arbitrary delivery interleaving and fragmentation, and transport "
        "losses at arbitrary points (incl. mid-frame) with persistent-session resumption; the monitor requires no panic and no error event on "
